@@ -29,6 +29,7 @@ func jsQuery(store *server.Store, dsm *server.DsManager, op server.VerifOp, toke
 
 // POST /query through web.queryHandler; the continuation tokens of a paged query are kept per op id
 var httpSessions = map[string][]string{}
+var httpOriginal = map[string]map[string]interface{}{} // the first request of a session
 
 func httpPost(store *server.Store, dsm *server.DsManager, body interface{}) (int, []byte) {
 	b, _ := json.Marshal(body)
@@ -78,8 +79,10 @@ func httpQ(store *server.Store, dsm *server.DsManager, op server.VerifOp, tokens
 	if dss == nil {
 		dss = []string{}
 	}
-	st, resp := httpPost(store, dsm, map[string]interface{}{"startingEntities": op.Starts, "predicate": op.Pred, "inverse": op.Inverse,
-		"datasets": dss, "limit": op.Limit})
+	first := map[string]interface{}{"startingEntities": op.Starts, "predicate": op.Pred, "inverse": op.Inverse,
+		"datasets": dss, "limit": op.Limit}
+	httpOriginal[op.ID] = first
+	st, resp := httpPost(store, dsm, first)
 	page, conts, e := httpPage(st, resp)
 	if e != "" {
 		oo.Err = e
@@ -99,7 +102,17 @@ func httpCont(store *server.Store, dsm *server.DsManager, op server.VerifOp, tok
 			oo.Err = "paging does not terminate"
 			return
 		}
-		st, resp := httpPost(store, dsm, map[string]interface{}{"continuations": conts, "limit": op.Limit})
+		body := map[string]interface{}{"continuations": conts, "limit": op.Limit}
+		if op.Resend {
+			// a client that pages by re-sending its original query document with the tokens added
+			// (DOCUMENTATION: continuations override the other attributes)
+			body = map[string]interface{}{}
+			for k, v := range httpOriginal[op.ID] {
+				body[k] = v
+			}
+			body["continuations"] = conts
+		}
+		st, resp := httpPost(store, dsm, body)
 		page, next, e := httpPage(st, resp)
 		if e != "" {
 			oo.Err = e
@@ -193,6 +206,7 @@ func main() {
 			os.Exit(2)
 		}
 		httpSessions = map[string][]string{}
+		httpOriginal = map[string]map[string]interface{}{}
 		obs := server.VerifC03Run(c, fmt.Sprintf("%s/c%d", dir, i))
 		b, _ := json.Marshal(obs)
 		out.WriteString("@@OBS ")
